@@ -61,18 +61,20 @@ def selectCols {s' : Nat} (f : Fin s' → Fin m) (A : Mat n m K) : Mat n s' K :=
 def all (A : Mat n m K) (p : K → Bool) : Bool :=
   (List.finRange n).all fun i => (List.finRange m).all fun j => p (A.get i j)
 
+/-- element `q` of the column-stacked vector: entry `(q mod n, q div n)` -/
+def vecGet (A : Mat n s K) (q : Fin (n * s)) : K :=
+  have hn : 0 < n := by
+    rcases Nat.eq_zero_or_pos n with h | h
+    · have := q.isLt; subst h; simp at this
+    · exact h
+  A.get ⟨q.val % n, Nat.mod_lt _ hn⟩
+    ⟨q.val / n, by
+      have := q.isLt
+      exact (Nat.div_lt_iff_lt_mul hn).mpr (by have e := Nat.mul_comm n s; omega)⟩
+
 /-- `to_vector` of `src/util/mod.rs` (`reshape_generic` of a column-major matrix): the columns
 stacked on top of each other; element `i + j·n` is `A i j`. -/
-def vec (A : Mat n s K) : Vector K (n * s) :=
-  Vector.ofFn fun (q : Fin (n * s)) =>
-    have hn : 0 < n := by
-      rcases Nat.eq_zero_or_pos n with h | h
-      · have := q.isLt; subst h; simp at this
-      · exact h
-    A.get ⟨q.val % n, Nat.mod_lt _ hn⟩
-      ⟨q.val / n, by
-        have := q.isLt
-        exact (Nat.div_lt_iff_lt_mul hn).mpr (by have e := Nat.mul_comm n s; omega)⟩
+def vec (A : Mat n s K) : Vector K (n * s) := Vector.ofFn A.vecGet
 
 /-- horizontal concatenation `[A | B]` (`concat_colwise` of `src/statistics/mod.rs`) -/
 def hcat (A : Mat n m K) (B : Mat n k K) : Mat n (m + k) K :=
